@@ -32,6 +32,7 @@ type Hints struct {
 	InstDepth int
 	TrigDepth int
 	RegionCtx bool
+	NoGoalClosure bool
 }
 
 func (h *Hints) clone() *Hints {
